@@ -8,6 +8,7 @@ mod front;
 mod heap_run;
 mod lex_run;
 mod lsp_run;
+mod mir_dump;
 mod mir_types;
 mod mirsem;
 mod ops_table;
@@ -40,6 +41,7 @@ fn main() {
     "heap-run" => heap_run::main(rest),
     "lex-run" => lex_run::main(rest),
     "lsp-run" => lsp_run::main(rest),
+    "mir-dump" => mir_dump::main(rest),
     "mir-types" => mir_types::main(rest),
     "mir-run" => mirsem::main(rest),
     "ops-table" => ops_table::main(rest),
